@@ -6,6 +6,7 @@ import (
 	"go/constant"
 	"go/token"
 	"go/types"
+	"golang.org/x/tools/go/ssa"
 	"math/big"
 	"strconv"
 	"strings"
@@ -20,7 +21,6 @@ func init() {
 	register(&Rule{ID: "T-POW10", Props: []string{"C14"}, Doc: "float64pow10[k]==10^k, int64pow10[k]==10^k", Run: runPow10})
 	register(&Rule{ID: "T-HASH", Props: []string{"C16", "C09", "C08"}, Doc: "generated perfect hash agrees with its text table", Run: runHash})
 	register(&Rule{ID: "T-TABLES", Props: []string{"C16", "C17"}, Doc: "whitespaceTable/newlineTable membership; EncodeURL escapes iff table[c]", Run: runByteTables})
-	register(&Rule{ID: "T-ESCLEN", Props: []string{"C17"}, Doc: "escape size increments equal len(entity)-1 and the entity matches the quote", Run: runEscLen})
 }
 
 // ---------------------------------------------------------------- T-LENUINT
@@ -481,13 +481,41 @@ func runByteTables(r *core.Run) {
 		r.BrokenAnchor("root package")
 		return
 	}
+	// the class tables are the [256]bool globals that the exported predicates IsWhitespace / IsNewline index with their argument
 	for _, tc := range []struct {
-		name string
-		set  string
-	}{{"whitespaceTable", " \t\n\f\r"}, {"newlineTable", "\n\r"}} {
-		t, err := boolTable(pk, tc.name)
+		fn  string
+		set string
+	}{{"IsWhitespace", " \t\n\f\r"}, {"IsNewline", "\n\r"}} {
+		fn := r.Prog.SSAFunc("", "", tc.fn)
+		if fn == nil {
+			r.BrokenAnchor("parse." + tc.fn)
+			continue
+		}
+		var g *ssa.Global
+		good := false
+		if ret := singleReturn(fn); ret != nil && len(ret.Results) == 1 && len(fn.Params) == 1 {
+			if u, ok := ret.Results[0].(*ssa.UnOp); ok && u.Op == token.MUL {
+				if ia, ok := u.X.(*ssa.IndexAddr); ok {
+					g, _ = ia.X.(*ssa.Global)
+					idx := ia.Index
+					for {
+						if cv, ok := idx.(*ssa.Convert); ok {
+							idx = cv.X
+							continue
+						}
+						break
+					}
+					good = g != nil && idx == ssa.Value(fn.Params[0])
+				}
+			}
+		}
+		r.Check(good, tc.fn+" is a table look-up of its argument", fn.Pos(), "", tc.fn+" is no longer `return <[256]bool table>[c]`")
+		if g == nil {
+			continue
+		}
+		t, err := boolTable(pk, g.Name())
 		if err != nil {
-			r.Unknown(tc.name, token.NoPos, err.Error())
+			r.Unknown("table of "+tc.fn, token.NoPos, err.Error())
 			continue
 		}
 		bad := -1
@@ -496,26 +524,7 @@ func runByteTables(r *core.Run) {
 				bad = c
 			}
 		}
-		r.Check(bad < 0, tc.name, token.NoPos, fmt.Sprintf("equals %q on all 256 byte values", tc.set), fmt.Sprintf("%s[%#x] disagrees with the documented set %q", tc.name, bad, tc.set))
-	}
-	// IsWhitespace / IsNewline index exactly these tables
-	for fn, tab := range map[string]string{"IsWhitespace": "whitespaceTable", "IsNewline": "newlineTable"} {
-		fd, _ := r.Prog.FuncDecl("", "", fn)
-		if fd == nil {
-			r.BrokenAnchor("parse." + fn)
-			continue
-		}
-		ok := false
-		if len(fd.Body.List) == 1 {
-			if ret, isRet := fd.Body.List[0].(*ast.ReturnStmt); isRet && len(ret.Results) == 1 {
-				if ix, isIx := ret.Results[0].(*ast.IndexExpr); isIx {
-					if id, isID := ix.X.(*ast.Ident); isID && id.Name == tab {
-						ok = true
-					}
-				}
-			}
-		}
-		r.Check(ok, fn+" uses "+tab, fd.Pos(), "", fn+" is no longer `return "+tab+"[c]`")
+		r.Check(bad < 0, "table of "+tc.fn, token.NoPos, fmt.Sprintf("equals %q on all 256 byte values", tc.set), fmt.Sprintf("%s[%#x] disagrees with the documented set %q", g.Name(), bad, tc.set))
 	}
 	if r.Prop == "C17" {
 		return
